@@ -54,6 +54,8 @@ def generate(seed, tier):
     G, nj = gpath(rng, T, 5.0, 60.0, 1)
     case = {'kind': 'ECON', 'which': which, 'on_grid': on_grid, 'T': T, 'alpha1': a1, 'alpha2': a2, 'theta': th,
             'G': G, 'jumps': nj, 'V0': 0.0, 'YD0': 0.0}
+    if which == 'ITER' and S['swarm'].random() < 0.4:
+        case['method2'] = True
     if which != 'ITER' and S['swarm'].random() < 0.2:
         case['book_exo'] = True
     if which != 'ITER' and S['swarm'].random() < 0.25:
@@ -249,7 +251,13 @@ def run_iter(c):
     m.theta, m.alpha1, m.alpha2 = c['theta'], c['alpha1'], c['alpha2']
     m.G = list(c['G'])
     m.H = [c['V0']]
-    m.main()
+    if c.get('method2'):
+        # the class's second stepping method: whole-vector fixed-point passes (it refuses with ValueError when 100 passes
+        # are not enough - then nothing is claimed)
+        while m.T < len(m.G):
+            m.RunMethod2()
+    else:
+        m.main()
     return {'Y': m.Y, 'T': m.tax, 'YD': m.YD, 'C': m.C, 'H': m.H}
 
 
@@ -271,6 +279,10 @@ def execute(case):
     except Exception as ex:   # noqa
         outcome = type(ex).__name__
         stats['outcome'] = {outcome: 1}
+        if outcome == 'ValueError' and case.get('method2') and 'No convergence' in str(ex):
+            stats['inconclusive_nonconvergent'] = 1
+            stats['probes']['method2_refused'] = 1
+            return {'violations': [], 'stats': stats, 'sig': 'method2-refused', 'digest': core.digest(case), 'nontrivial': False}
         if outcome == 'ConvergenceError':
             stats['inconclusive_nonconvergent'] = 1
             return {'violations': [], 'stats': stats, 'sig': 'failed', 'digest': core.digest([case, outcome]), 'nontrivial': False}
@@ -311,6 +323,8 @@ def execute(case):
         stats['probes']['path_with_jumps'] = 1
     if case['V0']:
         stats['probes']['initial_stocks'] = 1
+    if case.get('method2'):
+        stats['probes']['iterative_model_stepped_with_method2'] = 1
     if case.get('resolve'):
         stats['probes']['solved_twice_on_the_same_solver'] = 1
     if case.get('params_exo'):
